@@ -18,6 +18,7 @@ from trie.exceptions import InvalidKeyError
 
 from ..bgen import BHistory, make_pool, make_values, probe_keys
 from ..core import HarnessError, Violation, deep, hx, unhx
+from ..simdb import STORE_FLAVOURS
 from ..models.binref import RefBin
 from .c12 import World as C12World
 
@@ -413,7 +414,7 @@ def generate(rng):
         if rng.random() < p_pre:
             c["pre_wh"] = [rng.randrange(1000) for _ in range(rng.choice([1, 2, 4, 8]))]
         cmds.insert(pos, c)
-    return {"prop": ID, "cfg": {"probe": [hx(k) for k in probes[:60]], "store": rng.choice(["min", "min", "dict"])}, "cmds": cmds}
+    return {"prop": ID, "cfg": {"probe": [hx(k) for k in probes[:60]], "store": rng.choice(STORE_FLAVOURS)}, "cmds": cmds}
 
 
 def explore(rng, st):
